@@ -1,0 +1,16 @@
+//go:build verif
+
+package logic
+
+// VerifTap, when set, receives one event per protocol step of JumpMark and
+// Jump (conformance checking of the mark/jump loop protocol; build tag verif
+// only). proc is the *JumpMark or *Jump whose goroutine emits the event, so
+// events of one proc are totally ordered; no order is implied across procs.
+// A blocking VerifTap doubles as a scheduler gate.
+var VerifTap func(proc interface{}, ev string, args ...interface{})
+
+func verifTap(proc interface{}, ev string, args ...interface{}) {
+	if VerifTap != nil {
+		VerifTap(proc, ev, args...)
+	}
+}
